@@ -83,6 +83,10 @@ pub mod stdspec {
         ensures #[trigger] s@.len() <= isize::MAX
     { admit(); }
 
+    // String::with_capacity: an empty string (the capacity is only a hint)
+    pub assume_specification [String::with_capacity] (n: usize) -> (r: String)
+        ensures r@ == Seq::<char>::empty();
+
     pub broadcast group group_std_axioms {
         axiom_cow_deref_u8,
         axiom_slice_len_bound,
